@@ -62,6 +62,13 @@ def _random_circuit(rng, n_qubits, depth, measurements, tagged=False):
     return cirq.Circuit(moments_ops, strategy=strategy), qs
 
 
+def _nodeep(ctx):
+    """these transformers document that they refuse deep=True"""
+    import dataclasses
+
+    return dataclasses.replace(ctx, deep=False)
+
+
 def _transformers():
     import cirq
 
@@ -86,6 +93,23 @@ def _transformers():
         ("stratified_circuit", lambda c, ctx: cirq.stratified_circuit(c, context=ctx, categories=[cirq.is_measurement, lambda op: len(op.qubits) == 1])),
         ("optimize_for_target_gateset(CZ)", lambda c, ctx: cirq.optimize_for_target_gateset(c, context=ctx, gateset=cirq.CZTargetGateset())),
         ("optimize_for_target_gateset(sqrt_iswap)", lambda c, ctx: cirq.optimize_for_target_gateset(c, context=ctx, gateset=cirq.SqrtIswapTargetGateset())),
+        ("insertion_sort_transformer", lambda c, ctx: cirq.transformers.insertion_sort_transformer(c, context=ctx)),
+        ("drop_diagonal_before_measurement", lambda c, ctx: cirq.transformers.drop_diagonal_before_measurement(c, context=ctx)),
+        ("merge_moments(disjoint qubits)", lambda c, ctx: cirq.merge_moments(
+            c, lambda m1, m2: cirq.Moment(m1.operations + m2.operations) if m1.qubits.isdisjoint(m2.qubits) and not (cirq.measurement_key_objs(m1) | cirq.control_keys(m1)) & (cirq.measurement_key_objs(m2) | cirq.control_keys(m2)) else None,
+            tags_to_ignore=ctx.tags_to_ignore, deep=ctx.deep)),
+        ("add_dynamical_decoupling(XX_PAIR)", lambda c, ctx: cirq.add_dynamical_decoupling(c, context=_nodeep(ctx), schema="XX_PAIR")),
+        ("add_dynamical_decoupling(X_XINV, all moments)", lambda c, ctx: cirq.add_dynamical_decoupling(c, context=_nodeep(ctx), schema="X_XINV", single_qubit_gate_moments_only=False)),
+        ("add_dynamical_decoupling(YY_PAIR)", lambda c, ctx: cirq.add_dynamical_decoupling(c, context=_nodeep(ctx), schema="YY_PAIR")),
+        ("CZGaugeTransformer", lambda c, ctx: cirq.transformers.CZGaugeTransformer(c, context=_nodeep(ctx), prng=np.random.default_rng(7))),
+        ("ISWAPGaugeTransformer", lambda c, ctx: cirq.transformers.ISWAPGaugeTransformer(c, context=_nodeep(ctx), prng=np.random.default_rng(8))),
+        ("SqrtCZGaugeTransformer", lambda c, ctx: cirq.transformers.SqrtCZGaugeTransformer(c, context=_nodeep(ctx), prng=np.random.default_rng(9))),
+        ("SqrtISWAPGaugeTransformer", lambda c, ctx: cirq.transformers.SqrtISWAPGaugeTransformer(c, context=_nodeep(ctx), prng=np.random.default_rng(10))),
+        ("SpinInversionGaugeTransformer", lambda c, ctx: cirq.transformers.SpinInversionGaugeTransformer(c, context=_nodeep(ctx), prng=np.random.default_rng(11))),
+        ("index_tags+remove_tags", lambda c, ctx: cirq.remove_tags(cirq.index_tags(c, context=ctx, target_tags={"ignore"}), context=ctx, remove_if=lambda t: False)),
+        ("unroll_circuit_op(all)", lambda c, ctx: cirq.unroll_circuit_op(c, deep=ctx.deep, tags_to_check=None)),
+        ("unroll_circuit_op_greedy_earliest(all)", lambda c, ctx: cirq.unroll_circuit_op_greedy_earliest(c, deep=ctx.deep, tags_to_check=None)),
+        ("unroll_circuit_op_greedy_frontier(all)", lambda c, ctx: cirq.unroll_circuit_op_greedy_frontier(c, deep=ctx.deep, tags_to_check=None)),
         ("defer_measurements+dephase", None),
     ]
     return T
